@@ -62,6 +62,12 @@ pub fn generate_case(prop: &dyn Property, seed: u64, index: u64, tier: Tier) -> 
     if mix(&[seed, prop_tag(prop.id()), index, 0x5eed]) % 16 == 0 && !prop.process_level_only() {
         case.set("aborted_run_before", 1);
     }
+    // the properties that compare separate runs (a record alone, a stream cut in two, the
+    // first deliveries only): one scenario in six gives every run a thread of its own, so
+    // that nothing one run leaves in a thread-local can make the next one agree with it
+    if matches!(prop.id(), "C10" | "C11" | "C06" | "C17") && mix(&[seed, prop_tag(prop.id()), index, 0x150]) % 6 == 0 {
+        case.set("isolated_runs", 1);
+    }
     case
 }
 
@@ -115,7 +121,12 @@ pub fn full_check(prop: &dyn Property, case: &Case, ctx: &mut Ctx) -> Result<Opt
     if case.param("aborted_run_before") == 1 {
         aborted_run_before(case, ctx);
     }
+    ctx.isolate_runs = case.param("isolated_runs") == 1;
+    if ctx.isolate_runs {
+        ctx.stats.probe("every run of the scenario in a thread of its own");
+    }
     let v = prop.check(case, ctx);
+    ctx.isolate_runs = false;
     if let Some(h) = &ctx.harness_error {
         return Err(h.clone());
     }
